@@ -97,7 +97,10 @@ LongVal(body)    == LET e == IndexOf(body, Eq) IN IF e = 0 THEN <<>> ELSE Drop(b
 Abbreviated(specs, name) == {k \in 1..Len(specs) :
                                specs[k].long # <<>> /\ specs[k].long # name /\ HasPrefix(specs[k].long, name)}
 LongTok(body, specs, v) ==
-  LET name  == LongName(body)
+  LET e     == IndexOf(body, Eq)
+      name  == IF e = 0 THEN body ELSE SubSeq(body, 1, e - 1)
+      val   == IF e = 0 THEN <<>> ELSE Drop(body, e)
+      hasv  == e # 0
       exact == FindLong(specs, name)
       ab    == Abbreviated(specs, name)
       k     == IF exact # 0 THEN exact
@@ -105,11 +108,11 @@ LongTok(body, specs, v) ==
                ELSE 0
       isAb  == exact = 0 /\ ab # {}
   IN  IF k = 0
-      THEN [opts |-> <<Opt(0, TRUE, name, LongVal(body))>>, need |-> FALSE,
+      THEN [opts |-> <<Opt(0, TRUE, name, val)>>, need |-> FALSE,
             unspec |-> isAb /\ v.abbr = "yes", abbr |-> isAb]                  \* ambiguous under (2)
-      ELSE [opts |-> <<Opt(k, TRUE, specs[k].long, LongVal(body))>>,       \* reported under its full name
-            need |-> specs[k].arity = "req" /\ ~LongHasVal(body),
-            unspec |-> specs[k].arity = "no" /\ LongHasVal(body),               \* Unspecified (1)
+      ELSE [opts |-> <<Opt(k, TRUE, specs[k].long, val)>>,                     \* reported under its full name
+            need |-> specs[k].arity = "req" /\ ~hasv,
+            unspec |-> specs[k].arity = "no" /\ hasv,                          \* Unspecified (1)
             abbr |-> isAb]
 
 \* The package reports the name of a short option as a rune: a byte that is not valid UTF-8 can
@@ -145,7 +148,8 @@ Init0 == [opts |-> <<>>, rest |-> <<>>, pend |-> <<>>, stop |-> FALSE,
 Actions == {"TakeArg", "NonOptAfter", "Terminator", "DDNoBit", "Long", "Short", "Word"}
 
 DD == <<Dash, Dash>>
-LooksLong2(arg)  == HasPrefix(arg, DD) /\ arg # DD
+StartsDD(arg)    == Len(arg) >= 2 /\ arg[1] = Dash /\ arg[2] = Dash
+LooksLong2(arg)  == Len(arg) >= 3 /\ arg[1] = Dash /\ arg[2] = Dash
 LooksDash1(arg)  == Len(arg) >= 2 /\ arg[1] = Dash /\ arg[2] # Dash
 
 Guard(a, st, arg, cfg) ==
@@ -157,7 +161,14 @@ Guard(a, st, arg, cfg) ==
     [] a = "Short"       -> st.pend = <<>> /\ ~st.stop /\ ~cfg.lo /\ LooksDash1(arg)
     [] a = "Word"        -> st.pend = <<>> /\ ~st.stop /\ (Len(arg) < 2 \/ arg[1] # Dash)
 
-ActionOf(st, arg, cfg) == CHOOSE a \in Actions : Guard(a, st, arg, cfg)
+\* the same decision as a cascade (MCGetopt checks that it agrees with Guard and that exactly one
+\* guard holds)
+ActionOf(st, arg, cfg) ==
+  IF st.pend # <<>> THEN "TakeArg"
+  ELSE IF st.stop THEN "NonOptAfter"
+  ELSE IF Len(arg) < 2 \/ arg[1] # Dash THEN "Word"
+  ELSE IF arg[2] = Dash THEN (IF Len(arg) > 2 THEN "Long" ELSE IF cfg.dd THEN "Terminator" ELSE "DDNoBit")
+  ELSE IF cfg.lo THEN "Long" ELSE "Short"
 
 WithTok(st, r) ==
   IF r.need
@@ -171,7 +182,7 @@ Do(a, st, arg, specs, cfg, v) ==
     [] a = "DDNoBit"     -> IF v.dd = "word"
                             THEN [st EXCEPT !.rest = Append(st.rest, arg), !.stop = cfg.bsd, !.fdd = TRUE]
                             ELSE [st EXCEPT !.opts = Append(st.opts, Opt(0, TRUE, <<>>, <<>>)), !.fdd = TRUE]
-    [] a = "Long"        -> LET body == IF HasPrefix(arg, DD) THEN Drop(arg, 2) ELSE Drop(arg, 1)
+    [] a = "Long"        -> LET body == IF arg[2] = Dash THEN Drop(arg, 2) ELSE Drop(arg, 1)
                                 r    == LongTok(body, specs, v)
                                 s1   == WithTok(st, r)
                             IN  [s1 EXCEPT !.unspec = st.unspec \/ r.unspec, !.fabbr = st.fabbr \/ r.abbr]
@@ -222,8 +233,8 @@ LastCtx(st, last, specs, cfg, v) ==
   ELSE IF st.stop THEN LC(Ctx("Argument", <<>>, last), NoExtra, FALSE, FALSE)
   ELSE IF last = <<>> THEN LC(Ctx("OptionOrArgument", <<>>, <<>>), NoExtra, FALSE, FALSE)
   ELSE IF last = <<Dash>> THEN LC(Ctx("AnyOption", <<>>, <<>>), NoExtra, FALSE, FALSE)
-  ELSE IF HasPrefix(last, DD) \/ (cfg.lo /\ last[1] = Dash)
-  THEN LET body == IF HasPrefix(last, DD) THEN Drop(last, 2) ELSE Drop(last, 1)
+  ELSE IF StartsDD(last) \/ (cfg.lo /\ last[1] = Dash)
+  THEN LET body == IF StartsDD(last) THEN Drop(last, 2) ELSE Drop(last, 1)
        IN  IF ~LongHasVal(body)
            THEN LC(Ctx("LongOption", <<>>, body), NoExtra, last = DD /\ ~cfg.dd, FALSE)   \* Unspecified (5)
            ELSE LET r == LongTok(body, specs, v)
